@@ -471,8 +471,9 @@ class CoreCheck:
         replayed on the real resources (harness/src/bin/c09_buffers.rs) - drained results, the content of
         all four buffers and "nothing buffered without a connection" compared after every call."""
         res = {"model": [], "as_found": [], "replayed": {}}
-        for cfg in ("Buffers_client.cfg", "Buffers_server.cfg"):
-            r = L.run_tlc("Buffers", cfg, self.wd, workers=4, timeout=600)
+        deep = ("Buffers_client_deep.cfg", "Buffers_server_deep.cfg") if self.tier == "thorough" else ()
+        for cfg in ("Buffers_client.cfg", "Buffers_server.cfg") + deep:
+            r = L.run_tlc("Buffers", cfg, self.wd, workers=8 if deep else 4, timeout=900)
             self.states += r["distinct"]
             self.transitions += r["states"]
             res["model"].append({"config": cfg, "distinct": r["distinct"], "violated": r["violated"]})
